@@ -209,6 +209,11 @@ func (s *Sim) envHealthy(in *PktInfo, fo *FeeOutcome) (bool, string) {
 			}
 		}
 	}
+	for _, mod := range bridgeModules[p.Proto] {
+		if s.squatted(mod) {
+			return false, "the bridge's module address holds a plain account"
+		}
+	}
 	switch p.Proto {
 	case "PROTOCOL_CCTP":
 		if e.CCTPPaused || e.CCTPMsgStop || !e.Messenger[p.Domain] {
